@@ -17,17 +17,22 @@ pub fn showdown_json(sd: &Showdown) -> String {
     )
 }
 
-fn event(board: &[usize], players: &[(usize, usize)], p: f32, out: &mut Out) {
+/// one call of Showdown::new as an event
+fn call_json(board: &[usize], players: &[(usize, usize)], p: f32) -> String {
     let b = [card(board[0]), card(board[1]), card(board[2]), card(board[3]), card(board[4])];
     let ps: Vec<_> = players.iter().map(|(x, y)| pair(*x, *y)).collect();
     let r = guarded(move || Showdown::new(ps, b, p).map(|sd| showdown_json(&sd)));
     let pl: Vec<String> = players.iter().map(|(x, y)| format!("[{},{}]", x, y)).collect();
     let head = format!("{{\"op\":\"showdown\",\"board\":{},\"players\":[{}],\"p\":{},", list(board), pl.join(","), wbits(p.to_bits()));
     match r {
-        Some(Some(body)) => out.line(&format!("{}{}}}", head, body)),
-        Some(None) => out.line(&format!("{}\"none\":1}}", head)),
-        None => out.line(&format!("{}\"none\":-2}}", head)),
+        Some(Some(body)) => format!("{}{}}}", head, body),
+        Some(None) => format!("{}\"none\":1}}", head),
+        None => format!("{}\"none\":-2}}", head),
     }
+}
+
+fn event(board: &[usize], players: &[(usize, usize)], p: f32, out: &mut Out) {
+    out.line(&call_json(board, players, p));
 }
 
 /// draw `k` distinct cards not in `used`, from the ranks allowed by `band` (None = all)
@@ -122,5 +127,34 @@ pub fn record(args: &Args, mut out: Out) -> usize {
             }
         }
     }
+    // the result of a call is a function of its arguments: a fixed set of calls (several lead changes each, some
+    // refused) repeated many times on this one thread; a repetition whose result differs from the first one is logged
+    // as an ordinary event, which TLC then judges (the first result of every call is logged and judged as well)
+    let reps = args.num("volume", 120_000) as usize;
+    let mut fixed: Vec<(Vec<usize>, Vec<(usize, usize)>)> = vec![];
+    for _ in 0..24 {
+        let mut used = vec![];
+        let board = draw(&mut rng, &mut used, 5, None);
+        let np = 3 + rng.usize(4);
+        let mut pl: Vec<(usize, usize)> = (0..np).map(|_| { let h = draw(&mut rng, &mut used, 2, None); (h[0], h[1]) }).collect();
+        if fixed.len() % 6 == 5 {
+            pl[np - 1].0 = board[2]; // refused: a hole card on the board, found at the last seat
+        }
+        fixed.push((board, pl));
+    }
+    let first: Vec<String> = fixed.iter().map(|(b, pl)| call_json(b, pl, 0.5)).collect();
+    for f in &first {
+        out.line(f);
+    }
+    let mut deviating = 0;
+    for k in 0..reps {
+        let i = (k * 7 + k / 24) % fixed.len();
+        let j = call_json(&fixed[i].0, &fixed[i].1, 0.5);
+        if j != first[i] && deviating < 50 {
+            out.line(&j);
+            deviating += 1;
+        }
+    }
+    out.line(&format!("{{\"op\":\"volume\",\"calls\":{},\"deviating\":{}}}", reps, deviating));
     out.finish()
 }
